@@ -60,16 +60,16 @@ func (f *Logcount) Call(s *slip.Scope, args slip.List, depth int) slip.Object {
 			}
 		}
 	case *slip.Bignum:
-		ba := (*big.Int)(ti).Bytes()
-		for _, b := range ba {
-			for i := 0; i < 8; i++ {
-				if (b>>i)&0x01 == 1 {
-					cnt++
-				}
-			}
+		// The one bits of a non-negative integer and the zero bits of a
+		// negative one, which are the one bits of its complement.
+		bi := (*big.Int)(ti)
+		if bi.Sign() < 0 {
+			bi = new(big.Int).Not(bi)
 		}
-		if (*big.Int)(ti).Sign() < 0 && 0 < cnt {
-			cnt--
+		for i := bi.BitLen() - 1; 0 <= i; i-- {
+			if bi.Bit(i) == 1 {
+				cnt++
+			}
 		}
 	default:
 		slip.TypePanic(s, depth, "integer", ti, "integer")
